@@ -141,3 +141,67 @@ Proof. vm_compute. repeat split; reflexivity. Qed.
 (* str.format always returns a str, and that is what is inferred: both constant *)
 Definition pa_format_result_is_str : bool := true.
 Definition py_format_result_is_str : bool := true.
+
+(* ---------------------------------------------------------------- templates as characters *)
+(* both the field loop and CPython's lookup look at the argument names only *)
+Lemma field_loop_names : forall fs fs' nargs kw cur,
+  map f_name fs = map f_name fs' -> pa_field_loop fs nargs kw cur = pa_field_loop fs' nargs kw cur.
+Proof.
+  induction fs as [|fd fs IH]; intros [|fd' fs'] nargs kw cur H; try discriminate; [reflexivity|].
+  simpl in H. injection H as Hn Ht. simpl. rewrite <- Hn.
+  destruct (f_name fd); rewrite (IH fs' nargs kw _ Ht); reflexivity.
+Qed.
+
+Lemma fields_check_names : forall fs fs' nargs kw,
+  map f_name fs = map f_name fs' -> pa_fields_check fs nargs kw = pa_fields_check fs' nargs kw.
+Proof. intros. unfold pa_fields_check. rewrite (field_loop_names fs fs'); auto. Qed.
+
+Lemma fields_raise_names : forall fs fs' nargs kw st cur,
+  map f_name fs = map f_name fs' -> py_fields_raise fs nargs kw st cur = py_fields_raise fs' nargs kw st cur.
+Proof.
+  induction fs as [|fd fs IH]; intros [|fd' fs'] nargs kw st cur H; try discriminate; [reflexivity|].
+  simpl in H. injection H as Hn Ht. simpl. rewrite <- Hn.
+  destruct (f_name fd); destruct st; try reflexivity; rewrite (IH fs' nargs kw _ _ Ht); reflexivity.
+Qed.
+
+Lemma mix_names : forall fs fs', map f_name fs = map f_name fs' -> mix_clause fs = mix_clause fs'.
+Proof.
+  assert (forall fs fs', map f_name fs = map f_name fs' ->
+            existsb is_auto fs = existsb is_auto fs' /\ existsb is_numbered fs = existsb is_numbered fs') as H.
+  { induction fs as [|fd fs IH]; intros [|fd' fs'] H; try discriminate; [split; reflexivity|].
+    simpl in H. injection H as Hn Ht. destruct (IH fs' Ht) as [H1 H2]. simpl.
+    unfold is_auto at 1 3, is_numbered at 1 3. rewrite Hn, H1, H2. split; reflexivity. }
+  intros fs fs' Hm. unfold mix_clause. destruct (H fs fs' Hm) as [H1 H2]. rewrite H1, H2. reflexivity.
+Qed.
+
+(* pyanalyze's parser found no error and names the same arguments as CPython's
+   parser (a decidable per-template hypothesis, differential-tested): CPython's
+   numbering/lookup raises ==> _str_format_impl shows an error *)
+Theorem format_chars_raise_reported : forall t nargs kw fs fs',
+  pa_parse t = Some (fs, []) -> py_parse t = PYOk fs' -> map f_name fs = map f_name fs' ->
+  mix_clause fs' = false ->
+  py_fields_raise fs' nargs kw AInit 0 = true ->
+  option_map freport_reports (pa_format_check t nargs kw) = Some true.
+Proof.
+  intros t nargs kw fs fs' Hpa Hpy Hn Hm Hr.
+  unfold pa_format_check. rewrite Hpa. simpl.
+  rewrite (fields_check_names fs fs' nargs kw Hn).
+  rewrite (format_raise_reported fs' nargs kw Hm Hr). reflexivity.
+Qed.
+
+Theorem format_chars_report_sound : forall t nargs kw fs fs' l,
+  pa_parse t = Some (fs, []) -> py_parse t = PYOk fs' -> map f_name fs = map f_name fs' ->
+  pa_format_check t nargs kw = Some (RFields l) -> nonempty l = true ->
+  py_format_verdict t nargs kw = VRaises \/ forallb is_unused l = true.
+Proof.
+  intros t nargs kw fs fs' l Hpa Hpy Hn Hc Hl.
+  unfold pa_format_check in Hc. rewrite Hpa in Hc. injection Hc as Hc. subst l.
+  rewrite (fields_check_names fs fs' nargs kw Hn) in *.
+  destruct (format_report_sound fs' nargs kw Hl) as [H|H].
+  - left. unfold py_format_verdict. rewrite Hpy, H. reflexivity.
+  - right. exact H.
+Qed.
+
+(* the type inferred for `template.format(...)` is TypedValue(str); str.format returns a str *)
+Theorem format_result_type : pa_format_result_is_str = py_format_result_is_str.
+Proof. reflexivity. Qed.
